@@ -85,6 +85,18 @@ func c14Scenarios(thorough bool) []c14Scenario {
 				{Op: "completion", Doc: "main.journal", Line: 8, Char: 4},
 				{Op: "formatting", Doc: "main.journal"},
 			}},
+		{Name: "S6-configuration-pull-fails-then-succeeds", Files: files, Config: true, Bound: b(1, 2),
+			InitCfg: "",
+			Msgs: []wire.Msg{
+				{Op: "initialized"},
+				{Op: "config", Text: "EMPTY"},
+				{Op: "config", Text: `{"completion":{"maxResults":1},"formatting":{"indentSize":2}}`},
+				{Op: "open", Doc: "main.journal", Text: c14Main1},
+				{Op: "completion", Doc: "main.journal", Line: 8, Char: 4},
+				{Op: "drain"},
+				{Op: "completion", Doc: "main.journal", Line: 8, Char: 4},
+				{Op: "formatting", Doc: "main.journal"},
+			}},
 		{Name: "S4-two-docs-semantic-tokens", Files: files, Bound: b(1, 2), Msgs: []wire.Msg{
 			{Op: "open", Doc: "main.journal", Text: c14Main0},
 			{Op: "open", Doc: "inc.journal", Text: c14Inc0},
@@ -221,6 +233,17 @@ func checkC14(c *core.Ctx) {
 		if core.J(want) != core.J(want2) {
 			c.Res.InfraError = "sequential replay is not deterministic in " + sc.Name + "\n" + core.J(want) + "\n" + core.J(want2)
 			return
+		}
+		for i, w := range want {
+			if strings.HasPrefix(w, "PANIC ") {
+				cls := "panic"
+				if strings.Contains(w, "deadlock:") {
+					cls = "deadlock"
+				}
+				c.Violate(fmt.Sprintf("sequential run|%s|msg%d:%s|%s", sc.Name, i, sc.Msgs[i].Op, cls), "no crash and no deadlock",
+					fmt.Sprintf("message %d %s in the sequential run (every background computation finished before the next message): %s", i, sc.Msgs[i], firstN(w, 1500)),
+					c14Case{sc.Name, nil, sc.Bound})
+			}
 		}
 		lag := c14LagVariants(dir, sc)
 		outcomes := map[string]bool{}
